@@ -1,10 +1,15 @@
 package client
 
 import (
+	"bytes"
 	"fmt"
 
+	"github.com/jcmturner/gokrb5/v8/crypto"
+	"github.com/jcmturner/gokrb5/v8/iana/keyusage"
 	"github.com/jcmturner/gokrb5/v8/kadmin"
+	"github.com/jcmturner/gokrb5/v8/krberror"
 	"github.com/jcmturner/gokrb5/v8/messages"
+	"github.com/jcmturner/gokrb5/v8/types"
 )
 
 // Kpasswd server response codes.
@@ -38,6 +43,12 @@ func (cl *Client) ChangePasswd(newPasswd string) (bool, error) {
 	if err != nil {
 		return false, err
 	}
+	if !r.IsKRBError {
+		err = verifyKpasswdReply(msg, r, ASRep.DecryptedEncPart.Key)
+		if err != nil {
+			return false, err
+		}
+	}
 	err = r.Decrypt(key)
 	if err != nil {
 		return false, err
@@ -47,6 +58,30 @@ func (cl *Client) ChangePasswd(newPasswd string) (bool, error) {
 	}
 	cl.Credentials.WithPassword(newPasswd)
 	return true, nil
+}
+
+// verifyKpasswdReply checks that a reply comes from the server the ticket was issued for and answers this request.
+// Request and reply are sealed under the same subkey with the same key usage: the request's own KRB_PRIV handed back
+// decrypts as well, and what it holds is the new password, not a result.
+func verifyKpasswdReply(req kadmin.Request, rep kadmin.Reply, sessionKey types.EncryptionKey) error {
+	if bytes.Equal(rep.KRBPriv.EncPart.Cipher, req.KRBPriv.EncPart.Cipher) {
+		return krberror.NewErrorf(krberror.KRBMsgError, "kpasswd reply carries the KRB_PRIV of the request")
+	}
+	// The AP_REP is sealed under the ticket's session key and repeats the time of the authenticator sent.
+	b, err := crypto.DecryptEncPart(rep.APREP.EncPart, sessionKey, keyusage.AP_REP_ENCPART)
+	if err != nil {
+		return krberror.Errorf(err, krberror.DecryptingError, "AP_REP of the kpasswd reply does not decrypt under the ticket's session key")
+	}
+	var enc messages.EncAPRepPart
+	err = enc.Unmarshal(b)
+	if err != nil {
+		return err
+	}
+	sent := req.KRBPriv.DecryptedEncPart
+	if enc.CTime.Unix() != sent.Timestamp.Unix() || enc.Cusec != sent.Usec {
+		return krberror.NewErrorf(krberror.KRBMsgError, "AP_REP of the kpasswd reply does not answer this request")
+	}
+	return nil
 }
 
 func (cl *Client) sendToKPasswd(msg kadmin.Request) (r kadmin.Reply, err error) {
